@@ -253,6 +253,7 @@ def run_cbmc(q, gb, wd):
     results = None
     status = None
     msgs = []
+    nobody = []
     for e in data:
         if 'result' in e:
             results = e['result']
@@ -261,6 +262,9 @@ def run_cbmc(q, gb, wd):
         elif 'messageText' in e:
             t = e['messageText']
             msgs.append(t)
+            m = re.search(r'no body for (?:function|callee) (\S+)', t)
+            if m and not m.group(1).startswith('nondet_'):
+                nobody.append(m.group(1))
             m = re.search(r'Generated (\d+) VCC\(s\), (\d+) remaining', t)
             if m:
                 r.vccs, r.vccs_remaining = int(m.group(1)), int(m.group(2))
@@ -274,6 +278,10 @@ def run_cbmc(q, gb, wd):
             m = re.search(r'Runtime decision procedure: ([\d.]+)s', t)
             if m:
                 r.solver_s += float(m.group(1))
+    if nobody:
+        r.status = 'ERROR'
+        r.detail = 'functions without a body or model (would be havocked): ' + ', '.join(sorted(set(nobody)))
+        return r
     if results is None:
         r.status = 'ERROR'
         r.detail = 'no result block (rc=%d): %s' % (rc, ' | '.join(msgs[-6:])[-1500:])
@@ -299,10 +307,14 @@ def run_cbmc(q, gb, wd):
     for lab in wanted:
         if lab not in r.covers_hit and lab not in r.covers_missed:
             r.covers_missed.append(lab)
-    if any('[status ' in d for _, d, _ in r.props_failed):
+    definite = [x for x in r.props_failed if '[status ' not in x[1]]
+    if r.props_failed and not definite:
         r.status = 'INCONCLUSIVE'
         r.detail = 'solver gave no verdict (memory cap %sG or solver error): %s' % (q.mem_gb, ' | '.join(msgs[-3:])[-300:])
         r.props_failed = []
+    elif definite:
+        r.props_failed = definite      # undecided properties after a definite failure are not reported
+        r.status = 'FAIL'
     elif r.props_failed:
         r.status = 'FAIL'
     elif r.covers_missed:
